@@ -25,6 +25,7 @@ mod c06;
 mod c15;
 mod c11p;
 mod c09n;
+mod c18_orders;
 mod rng;
 
 use std::collections::HashMap;
@@ -89,6 +90,7 @@ fn main() {
         "malformed-worker" => c15::worker_main(&args),
         "poseidonctl" => c11p::main(&args),
         "busaudit" => c09n::main(&args),
+        "c18-orders" => c18_orders::main(&args),
         _ => {
             eprintln!("unknown subcommand {cmd}");
             std::process::exit(2);
